@@ -145,6 +145,12 @@ def run_pair(case, follow=True):
     dist, dec = new_dist(case["pre"])
     dist.mark_running()
     data = bytes.fromhex(case["bytes"])
+    good = good_message(dist._crypto)
+    if case.get("tamper"):          # the bad message is a copy of the VALID one that follows, one bit flipped
+        pos, mask = case["tamper"]
+        b = bytearray(good)
+        b[pos % len(b)] ^= mask
+        data = bytes(b)
     a = 100
     if case.get("script") == "silent":
         script, readings = [S.TIMEOUT], [a, a]
@@ -154,7 +160,6 @@ def run_pair(case, follow=True):
         script, readings = [data], [a, a, a, a + 1, a + 1, a + 2, a + 2, a + TRECV, a + TRECV + 1]
     clock = S.FakeClock(readings=[])
     c1 = S.ScriptedClient(script, clock, origin=(case["addr"], 40000), clock_readings=readings)
-    good = good_message(dist._crypto)
     c2 = S.ScriptedClient([good], clock, origin=(GOOD_ADDR, 40001), clock_readings=[200, 200, 200])
     snap = {}
 
@@ -589,12 +594,29 @@ def other_key_half(res):
                                      what="cluster key %r, forger's key %r: %s" % (pair[0], pair[1], bad), detail=None))
 
 
+def tamper_half(res):
+    """a message altered in transit arrives first, the genuine message (same nonce, same bytes otherwise) afterwards:
+    the altered copy is refused without effect and the genuine one is served"""
+    n = len(good_message(S.make_stepped(3, me=0)[0]._crypto))
+    for pos in sorted({0, 1, n // 3, n // 2, n - 45, n - 30, n - 22, n - 12, n - 6}):
+        for mask in (1, 128):
+            case = dict(pre=0, bytes="", addr="10.7.7.7", expect="reject", tamper=[pos, mask],
+                        why="auth: copy of the following valid message with bit %d of byte %d flipped" % (mask, pos))
+            r = run_pair(case)
+            res.note_case(("tamper", pos, mask), True)
+            fs = oracle(case, r)
+            if fs:
+                res.failures.append(fs[0])
+                return
+
+
 def run(ctx, res):
     import logging
     logging.disable(logging.CRITICAL)
     try:
         _run(ctx, res)
         other_key_half(res)
+        tamper_half(res)
     finally:
         logging.disable(logging.NOTSET)
 
@@ -692,6 +714,14 @@ def replay(obj):
     import logging
     logging.disable(logging.CRITICAL)
     r = run_pair(case)
+    if case.get("tamper"):
+        print("case          : %s" % case["why"])
+        fs = oracle(case, r)
+        for f in fs:
+            print("FAILS [%s]: %s" % (f["signature"], f["what"]))
+        if not fs:
+            print("altered copy refused without effect; the genuine message that follows is accepted and dispatched")
+        return 1 if fs else 0
     data = bytes.fromhex(case["bytes"])
     pt = ref_decrypt(data)
     print("case          : %s; %d bytes from %s; plaintext %r" % (case["why"], len(data), case["addr"],
